@@ -97,7 +97,10 @@ func randInt(f, t int64) (string, error) {
 		t = defaultMaxRandValue
 	}
 	if t == f {
-		f = t + defaultMaxRandValue
+		t = f + defaultMaxRandValue
+	}
+	if t-f <= 0 {
+		return "", fmt.Errorf("randInt range [%d, %d) does not fit int64", f, t)
 	}
 	n := rand.Int63n(t - f)
 	n += f
